@@ -345,6 +345,40 @@ Definition rat_canon (a b : Z) : Z * Z :=
   if g =? 0 then (a, b) else
   let s := if b <? 0 then -1 else 1 in (s * (a / g), s * (b / g)).
 
+(* ------------------------------------------------------------------ object histories (num wrappers) *)
+
+(* value of the NatPlus derived from n by one value-changing method (parameters a, s);
+   None = the method refuses (result would not be positive / inexact division).
+   Codes 7, 8, 12..16 are value-preserving conversions (Clone, Abs, via Nat / Int /
+   Cardinal / ModulusCT / Bytes). *)
+Definition np_derive (op n a s : Z) : option Z :=
+  let ok (v : Z) := if 0 <? v then Some v else None in
+  if op =? 0 then ok (n + 1) else if op =? 1 then ok (n - 1)
+  else if op =? 2 then ok (n + a) else if op =? 3 then ok (n - a)
+  else if op =? 4 then ok (n * a) else if op =? 5 then ok (n * 2 ^ s)
+  else if op =? 6 then ok (n / 2 ^ s) else if op =? 9 then ok (2 * n)
+  else if op =? 10 then ok (n * n)
+  else if op =? 11 then (if a <=? 0 then None else if n mod a =? 0 then ok (n / a) else None)
+  else if op =? 17 then ok (n / Z.gcd a n)      (* denominator of the canonical form of a/n *)
+  else ok n.
+
+Definition np_derive2 (op1 op2 n a s : Z) : option Z :=
+  match np_derive op1 n a s with
+  | None => None
+  | Some d1 => if op2 <? 0 then Some d1 else np_derive op2 d1 a s
+  end.
+
+(* a residue u modulo n after one Uint method *)
+Definition uint_step (op n u y e s : Z) : option Z :=
+  if op =? 0 then Some ((u + y) mod n) else if op =? 1 then Some ((u - y) mod n)
+  else if op =? 2 then Some ((u * y) mod n) else if op =? 3 then Some ((- u) mod n)
+  else if op =? 4 then Some (modpow (u mod n) e n) else if op =? 5 then Some ((u * 2 ^ s) mod n)
+  else if op =? 6 then Some ((u / 2 ^ s) mod n) else if op =? 8 then Some ((u + 1) mod n)
+  else if op =? 9 then Some ((u - 1) mod n) else if op =? 10 then Some ((2 * u) mod n)
+  else if op =? 11 then Some ((u * u) mod n)
+  else if op =? 12 then (if n =? 1 then Some 0 else modinv u n)
+  else Some (u mod n).
+
 (* ------------------------------------------------------------------ operation table *)
 
 (* operation names: string literals parsed into a private inductive (so that the
@@ -527,6 +561,37 @@ Definition table : list (Z * (list Z -> res)) :=
     (* conversions between the number structures: x (signed), modulus m *)
     e "num.convert"%opname (fun a => match a with [x; m] =>
         Ok [b2z (0 <=? x); Z.abs x; x mod m; Z.abs x mod m; mod_symmetric x m] | _ => Panic end);
+    (* object histories: the derived modulus d is computed from the VALUES only; then d in every role *)
+    e "num.history"%opname (fun a => match a with [n; p; x; y; ex; op1; op2; s] =>
+        match np_derive2 op1 op2 n p s with
+        | None => Refuse
+        | Some d =>
+          Ok ([d; x mod d; (x + y) mod d; (x * y) mod d; modpow (x mod d) ex d;
+               b2z ((0 <=? x) && (x <? d))] ++ cmp3 d n ++ [modpow (x mod n) d n])
+        end | _ => Panic end);
+    e "uint.history"%opname (fun a => match a with [n; x; y; ex; op1; op2; s] =>
+        match uint_step op1 n (x mod n) (y mod n) ex s with
+        | None => Refuse
+        | Some u1 =>
+          match (if op2 <? 0 then Some u1 else uint_step op2 n u1 (y mod n) ex s) with
+          | None => Refuse
+          | Some u2 => Ok [u2; n; (u2 + x) mod n; mod_symmetric u2 n]
+          end
+        end | _ => Panic end);
+    (* saferith caches "reduced modulo m" on a Nat: reduce, mutate in place, reduce again *)
+    e "nat.reduced"%opname (fun a => match a with [m; x; ax; y; ay; mut; s] =>
+        let r := trunc ax x mod m in let y := trunc ay y in
+        let lm := bitlen m in
+        let v := if mut =? 0 then add_cap r lm y ay (-1)
+                 else if mut =? 1 then add_cap r lm 1 1 (-1)
+                 else if mut =? 2 then lsh_cap r lm s (-1)
+                 else if mut =? 3 then mul_cap r lm y ay (-1)
+                 else if mut =? 4 then y
+                 else if mut =? 5 then (if Z.testbit r s then r else Z.setbit r s)
+                 else if mut =? 6 then or_cap r lm y ay (-1)
+                 else if mut =? 7 then add_cap r lm r lm (-1)
+                 else r in
+        Ok [v; v mod m; (v + y) mod m; (v * y) mod m] | _ => Panic end);
     (* ---- rationals a/b, c/d (b, d > 0) *)
     e "q.arith"%opname (fun a => match a with [a1; b1; c1; d1] =>
         let '(sn, sd) := rat_canon (a1 * d1 + c1 * b1) (b1 * d1) in
